@@ -702,3 +702,8 @@ mod tests {
         batcher.into_single_batch();
     }
 }
+
+#[cfg(kani)]
+mod verif_kani {
+    include!(concat!(env!("IPA_VERIF_DIR"), "/kani/batcher.rs"));
+}
